@@ -91,6 +91,18 @@ def gen_schedule(rng, i, tier):
         if rng.random() < 0.08 and (r_ in files or r_.endswith('.gitignore')):
             files[r_] = ''
     sp_ = base + 'config/settings.yaml'
+    if rng.random() < 0.08 or i % 10 == 8:
+        # settings.yaml names a rules / views file that is not there (a path written relative to the config folder, a file not yet
+        # copied over) while a file of the standard name sits in config/: that file is the user's all the same
+        for key_, std_ in (('merchants_file', 'merchants.rules'), ('views_file', 'views.rules')):
+            if base + 'config/' + std_ in files and rng.random() < 0.8:
+                named = rng.choice([std_, 'rules/' + std_, 'config/my-' + std_, '../' + std_])
+                line_ = '%s: config/%s' % (key_, std_)
+                eol_ = '\r\n' if '\r\n' in files[sp_] else '\n'
+                if line_ in files[sp_]:
+                    files[sp_] = files[sp_].replace(line_, '%s: %s' % (key_, named))
+                elif key_ + ':' not in files[sp_]:
+                    files[sp_] = files[sp_].rstrip('\r\n') + eol_ + '%s: %s' % (key_, named) + eol_
     if rng.random() < 0.1:
         files[sp_] = files[sp_].rstrip('\n') + rng.choice(['', '\n\n\n', '  \n', '\n# end'])
     snap = {r: c.encode('utf-8') for r, c in files.items()}
